@@ -416,7 +416,7 @@ def check_c16(pid, tier, replay):
             for i in json.loads(b):
                 op = ops[i - 1]
                 if op["o"] == "clear":
-                    op = {"o": "load", "keys": [{"key": 0, "tok": 7}, {"key": 32768, "tok": 0}], "bad": 1}  # a rejected load = no-op
+                    op = {"o": "load", "keys": [{"key": 0, "ins": gen_bank.mk_ins(0, 7)}, {"key": 32768}], "bad": 1}  # a rejected load = no-op
                 h.append(op)
             beh_hist.append(h)
     histories = list(beh_hist)
@@ -424,6 +424,8 @@ def check_c16(pid, tier, replay):
     ex = list(gen_bank.exhaustive(2 if q else 3)) + list(gen_bank.exhaustive(2, initcap=5))
     histories += ex
     histories += [gen_bank.random_history(rng, 40 if q else 80) for _ in range(300 if q else 3000)]
+    # flags x voice data x previous slot content of the instruments written (read-back = last written, every field)
+    histories += [gen_bank.flag_data_history(rng, 30 if q else 60) for _ in range(60 if q else 1200)]
     failures, counters, stats = vtrace.run_histories(pid, "drive_bank", "BankTrace", histories, marker='{"o":"init"')
     if stats["infra"]:
         print("INFRA:", stats["infra"][0][:2000])
